@@ -389,3 +389,10 @@ def r17_6(ctx):
         for c in pcs:
             ok = len(c.args) == 1 and isinstance(c.args[0], ast.Name) and c.args[0].id in params and not c.keywords
             ctx.check(f"{q} parses its text argument unmodified", ok, "self.parser.parse(<parameter>)", U(c)[:80], fn_where(idx, fi), nontrivial=False)
+
+
+@rule("R17.7", "C17", "the tree filed under an instruction's name is the tree of that instruction's text, whatever the pool's schedule: results are keyed by the name each task returns, never by arrival position", min_instances=8)
+def r17_7(ctx):
+    from .c18 import r18_2
+
+    r18_2(ctx)
